@@ -641,14 +641,21 @@ class Foreign(EngineBase):
                         and method != "name":
                     V("C20.no_bare", ftags + [cls, "name"], "%s raised %r: "
                       "cached name %r not carried" % (method, e, cached))
-                if cls == "NSP" and state_end != "absent":
+                probe_faulted = any(f.get("probe") for f in fired)
+                if probe_faulted:
+                    # the layer could not find out whether the pid is a
+                    # zombie / still there: any of the three psutil errors
+                    # is an acceptable translation, only leaks are judged
+                    pass
+                elif cls == "NSP" and state_end != "absent":
                     if not self.special_ok(platform, method, pid, cls):
                         V("C20.cause", ftags + [cls, state_end] + (
                             ["reused_msg"] if "reused" in str(getattr(
                                 e, "msg", "")) else []),
                           "%s raised %r but the pid is %s" % (
                               method, e, state_end))
-                if cls == "ZP" and state_end != "zombie":
+                if cls == "ZP" and state_end != "zombie" and \
+                        not probe_faulted:
                     V("C20.cause", ftags + [cls, state_end], "%s raised %r "
                       "but the pid is %s" % (method, e, state_end))
                 if cls == "AD" and "perm" not in classes and \
@@ -686,6 +693,13 @@ class Foreign(EngineBase):
                         getattr(e, "errno", None) == inj.errno):
                     V("C20.passthrough", ftags + [type(e).__name__],
                       "%s turned the injected %r into %r" % (method, inj, e))
+            elif len(fired) == 2 and fired[1].get("probe") and \
+                    isinstance(e, OSError):
+                V("C20.no_bare", ftags + [type(e).__name__, "probe_fault"],
+                  "%s: the native call failed with 'no such process' and "
+                  "the layer's own existence/zombie probe failed as well: "
+                  "%r escaped instead of NoSuchProcess/ZombieProcess" % (
+                      method, e))
             elif not fired and not isinstance(e, (NotImplementedError,)):
                 V("C20.fault_free", [type(e).__name__], "%s raised %r "
                   "without any fault" % (method, e))
@@ -962,6 +976,35 @@ class Foreign(EngineBase):
                             if r2.get("digest") != r.get("digest"):
                                 u["harness_errors"].append(
                                     "digest mismatch (%s %s)" % (platform, m))
+                # the translator's own probe fails too: after a 'no such
+                # process' failure at call k the layer asks the OS whether
+                # the pid still exists / is a zombie (call k+1, not part of
+                # the fault-free run); that call is refused or fails
+                if pidkind == "ordinary" and state == "live" and not cached:
+                    for (kk, kind, arg) in acc:
+                        if not kind.startswith("native:") or not (
+                                kind[7:].startswith(("proc_",
+                                                     "query_process")) or
+                                kind[7:] in ("getpriority", "setpriority")):
+                            continue
+                        if (kk + len(m)) % 2 and tier == "quick":
+                            continue
+                        for then in ("absent", "zombie"):
+                            if then == "zombie" and platform == "win32":
+                                continue
+                            for e2 in (errno.EPERM, errno.EIO):
+                                plan = dict(base, faults=[
+                                    {"k": kk, "errno": errno.ESRCH,
+                                     "then": then},
+                                    {"k": kk + 1, "errno": e2,
+                                     "winerror": 5 if platform == "win32"
+                                     and e2 == errno.EPERM else None,
+                                     "probe": True}])
+                                r = W.execute_forked(plan)
+                                u["evals"] += 1
+                                self._absorb(u, plan, r, (
+                                    m, "probe_fault", kind, then,
+                                    errno.errorcode[e2]))
                 # sampled double faults (thorough)
                 if tier == "thorough" and len(acc) >= 2:
                     for _ in range(2):
